@@ -301,7 +301,7 @@ def gen_calc(r, k, tier):
                 ucoh.append([a, b] + list(r.choice([[-1.0, 0.0], [0.0, 1.0], [0.0, -0.5], [-0.5, 0.5], [0.5, -0.5], [0.25, 0.0],
                                                     [-0.75, -0.25]])))
     return {"kind": "calc", "ucoh": ucoh, "en": en, "dip": dip, "wd": wd, "ga": ga, "coup": coup, "shape": shape, "pol": rpol(r),
-            "angles": ang, "reflect": r.random() < 0.3, "scale_pow": r.choice([-2, -1, 1, 2, 3]), "scale": r.choice([3.0, 0.7, 1.9]),
+            "angles": ang, "reflect": r.random() < 0.3, "scale_pow": r.choice([-2, -1, 1, 2, 3, -10, -13]), "scale": r.choice([3.0, 0.7, 1.9]),
             "perm": r.sample(range(N), N)}
 
 
